@@ -197,3 +197,166 @@ Section C01.
     forall st run, ProdParserSafe.sane_toks run -> exists st', leaf ParseSkel.LMediaQuery st run = ParseTotal.Returned st'.
   Proof. intros H st run Hs. rewrite H. apply media_leaf_returns. exact Hs. Qed.
 End C01.
+
+(* ---- the side condition `sane` holds for every token list the tokenizer produces (model: Tokenizer.tokenize), so
+   the media leaf returns on every run cut out of a tokenized text.  STRING tokens: C01's string_tokens_quoted_lemma;
+   S tokens: the S production matches only characters of its character set, which holds neither + nor -. *)
+From CssV Require Import Gen.Productions Gen.TokTables TokenizerFacts ParseTotalFacts.
+
+Definition s_prod_ok (p : str * re) : bool :=
+  if eqs (fst p) (s "S") then negb (cset (snd p) 43) && negb (cset (snd p) 45) else true.
+Lemma productions_S_ok : forallb s_prod_ok productions = true.
+Proof. vm_compute. reflexivity. Qed.
+
+Definition not_sign (v : str) : Prop := mem_s v [s "+"; s "-"] = false.
+
+Lemma try_prods_S ps dc fs prev rest name found pu :
+  forallb s_prod_ok ps = true ->
+  try_prods ps dc fs prev rest = Some (Step name found pu) -> name = s "S" -> not_sign found.
+Proof.
+  induction ps as [|[nm r] ps IH]; intros Hs H Hn; [discriminate|].
+  cbn [forallb] in Hs. apply andb_true_iff in Hs as [Hp Hs]. unfold s_prod_ok in Hp. cbn [fst snd] in Hp.
+  cbn [try_prods] in H.
+  match type of H with (if ?b then _ else _) = _ => destruct b end.
+  { inversion H; subst. discriminate. }
+  destruct (rmatch r prev rest) as [n|] eqn:E; [|apply IH; assumption].
+  match type of H with (if ?b then _ else _) = _ => destruct b; [apply IH; assumption|] end.
+  match type of H with (if ?b then _ else _) = _ => destruct b eqn:Ei end.
+  - inversion H; subst. discriminate.
+  - match type of H with (if ?b then _ else _) = _ => destruct b eqn:Eu end.
+    + repeat (apply andb_true_iff in Eu as [Eu ?]).
+      match goal with Hq : eqs nm (s "FUNCTION") = true |- _ => apply eqs_spec in Hq; subst nm end.
+      destruct (first_uri_end rest uri_ends); inversion H; subst; discriminate.
+    + inversion H; subst. rewrite eqs_refl in Hp. apply andb_true_iff in Hp as [H43 H45].
+      apply negb_true_iff in H43, H45.
+      destruct (rmatch_cset _ _ _ _ E) as [Hall _]. unfold not_sign.
+      destruct (firstn n rest) as [|c [|c2 r2]]; [reflexivity| |].
+      * inversion Hall as [|? ? Hc _]; subst. cbn. 
+        destruct (N.eqb c 43) eqn:E1; [apply N.eqb_eq in E1; subst; congruence|].
+        destruct (N.eqb c 45) eqn:E2; [apply N.eqb_eq in E2; subst; congruence|]. reflexivity.
+      * cbn. destruct (N.eqb c 43), (N.eqb c 45); reflexivity.
+Qed.
+
+Lemma atkeywords_not_S : forallb (fun p => negb (eqs (snd p) (s "S"))) atkeywords = true.
+Proof. vm_compute. reflexivity. Qed.
+Lemma assoc_str_not_S x tb sym :
+  forallb (fun p => negb (eqs (snd p) (s "S"))) tb = true -> assoc_str x tb = Some sym -> sym <> s "S".
+Proof.
+  induction tb as [|[k v] tb IH]; intros Hf H; [discriminate|]. cbn [forallb snd] in Hf.
+  apply andb_true_iff in Hf as [Hv Hf]. cbn [assoc_str] in H. destruct (eqs k x).
+  - inversion H; subst. intros ->. rewrite eqs_refl in Hv. discriminate.
+  - apply IH; assumption.
+Qed.
+Lemma S_not_resolved : mem_str (s "S") resolved_types = false. Proof. vm_compute. reflexivity. Qed.
+Lemma charset_sym_not_S : charset_sym <> s "S". Proof. vm_compute. discriminate. Qed.
+
+Lemma finish_token_S name found after name' found' value :
+  finish_token name found after = (name', found', value) -> name' = s "S" -> name = s "S" /\ value = found.
+Proof.
+  unfold finish_token. intros H Hn.
+  destruct (mem_str name resolved_types) eqn:Er.
+  - injection H as <- <- <-. subst name. rewrite S_not_resolved in Er. discriminate.
+  - destruct (eqs name (s "ATKEYWORD")) eqn:Ea.
+    + exfalso. destruct (assoc_str (normalize_u found) atkeywords) as [sym|] eqn:Es.
+      * injection H as <- <- <-. exact (assoc_str_not_S _ _ _ atkeywords_not_S Es Hn).
+      * match type of H with (if ?b then _ else _) = _ => destruct b end; injection H as <- <- <-.
+        -- exact (charset_sym_not_S Hn).
+        -- discriminate.
+    + injection H as <- <- <-. split; [exact Hn|reflexivity].
+Qed.
+
+Lemma loop_S_not_sign fuel : forall dc fs prev rest l c toks,
+  Tokenizer.loop fuel dc fs prev rest l c = Some toks ->
+  forall t, In t toks -> ty t = s "S" -> not_sign (val t).
+Proof.
+  induction fuel as [|fu IH]; intros dc fs prev rest l c toks H t Ht Hty.
+  - destruct rest; [|discriminate]. cbn [Tokenizer.loop] in H. injection H as <-.
+    destruct fs; simpl in Ht; [destruct Ht as [<-|[]]; discriminate|tauto].
+  - destruct rest as [|ch rest1].
+    { cbn [Tokenizer.loop] in H. injection H as <-.
+      destruct fs; simpl in Ht; [destruct Ht as [<-|[]]; discriminate|tauto]. }
+    cbn [Tokenizer.loop] in H. destruct (mem ch fastchars).
+    + destruct (Tokenizer.loop fu dc fs (Some ch) rest1 l (c + 1)%nat) as [ts|] eqn:E; [|discriminate].
+      cbn [option_map] in H. injection H as <-. destruct Ht as [<-|Ht]; [discriminate|].
+      eapply IH; eauto.
+    + destruct (try_prods productions dc fs prev (ch :: rest1)) as [[name found pu]|] eqn:E; [|discriminate].
+      destruct pu.
+      * destruct (finish_token name found (skipn (length found) (ch :: rest1))) as [[name' found'] value] eqn:Ef.
+        destruct (upd_pos l c found') as [l' c'].
+        destruct (Tokenizer.loop fu dc fs (last_opt prev found') (skipn (length found') (ch :: rest1)) l' c') as [ts|] eqn:El;
+          [|discriminate].
+        cbn [option_map] in H. injection H as <-.
+        assert (Hhead : ty (mkTok name' found' value l c) = s "S" -> not_sign value).
+        { cbn [ty]. intros Hn. destruct (finish_token_S _ _ _ _ _ _ Ef Hn) as [Hname ->].
+          eapply try_prods_S; eauto using productions_S_ok. }
+        match type of Ht with context[if ?b then _ else _] => destruct b end.
+        -- destruct Ht as [<-|Ht]; [apply Hhead; exact Hty|eapply IH; eauto].
+        -- eapply IH; eauto.
+      * injection H as <-.
+        apply try_prods_false_comment in E. subst name.
+        destruct Ht as [<-|Ht]; [cbn [ty] in Hty; discriminate|].
+        destruct fs; simpl in Ht; [destruct Ht as [<-|[]]; discriminate|tauto].
+Qed.
+
+Lemma bom_not_S : fst bom_production <> s "S". Proof. vm_compute. discriminate. Qed.
+
+Theorem tokenize_sane : forall dc fs text toks, tokenize dc fs text = Some toks -> ProdParserSafe.sane_toks toks.
+Proof.
+  intros dc fs text toks H. apply Forall_forall. intros t Ht. split.
+  - intros Hty. apply eqs_spec in Hty.
+    destruct (string_tokens_quoted_lemma dc fs text toks H t Ht Hty) as [q [body [_ Hv]]]. rewrite Hv. discriminate.
+  - intros Hv. destruct (eqs (ty t) (s "S")) eqn:Hty; [|reflexivity]. exfalso. apply eqs_spec in Hty.
+    assert (Hns : not_sign (val t)).
+    { apply tokenize_split in H as (bom & cs & rest1 & prev1 & c1 & ts & -> & Hb & _ & _ & Hcs & Hl).
+      apply in_app_or in Ht as [Ht|Ht].
+      - exfalso. destruct Hb as [->|(b & -> & Hbt & _)]; [destruct Ht|].
+        destruct Ht as [<-|[]]. rewrite Hty in Hbt. exact (bom_not_S (eq_sym Hbt)).
+      - apply in_app_or in Ht as [Ht|Ht].
+        + exfalso. destruct Hcs as [[-> _]|[-> _]]; [destruct Ht|].
+          destruct Ht as [<-|[]]. cbn [ty] in Hty. exact (charset_sym_not_S Hty).
+        + eapply loop_S_not_sign; eauto. }
+    unfold not_sign in Hns. congruence.
+Qed.
+
+(* the form C01 can use: every run cut out of a tokenized text (a sublist) is sane, so the media leaf returns on it *)
+Corollary media_leaf_returns_tokenized (St : Type) (commit : St -> bool -> list item -> St) :
+  forall dc fs text toks run st,
+  tokenize dc fs text = Some toks -> (forall t, In t run -> In t toks) ->
+  exists st', media_leaf St commit st run = ParseTotal.Returned st'.
+Proof.
+  intros dc fs text toks run st H Hsub. apply media_leaf_returns.
+  pose proof (tokenize_sane _ _ _ _ H) as Hs. apply Forall_forall. intros t Ht.
+  unfold ProdParserSafe.sane_toks in Hs. rewrite Forall_forall in Hs. auto.
+Qed.
+
+(* ---- the value half of C01's leaf LProperty: PropertyValue(cssText = the value run) with the interpreter's depth
+   budget above the number of tokens (the nesting of sub-parsers cannot exceed it: ProdParserDepth) *)
+From CssV Require ProdParserDepth.
+Section C01Value.
+  Variable St : Type.
+  Variable commit : St -> bool -> list item -> St.
+  Definition value_leaf (st : St) (run : list tok) : ParseTotal.outcome St :=
+    match pparse_env (S (length run)) env_real gid_PropertyValue run with
+    | Ret r => match post PostPV r with
+               | PRet w its _ => ParseTotal.Returned (commit st w its)
+               | PCrash => ParseTotal.Raised ParseTotal.IndexError
+               end
+    | OutOfFuel => ParseTotal.OutOfFuel
+    | x => ParseTotal.Raised (exn_of_out x)
+    end.
+  Theorem value_leaf_returns :
+    forall st run, ProdParserSafe.sane_toks run -> exists st', value_leaf st run = ParseTotal.Returned st'.
+  Proof.
+    intros st run Hs. destruct (ProdParserDepth.property_value_total run (S (length run)) Hs (Nat.lt_succ_diag_r _)) as [r [H1 H2]].
+    unfold value_leaf. rewrite H1. destruct (post PostPV r) as [w its mt|]; [eauto|congruence].
+  Qed.
+  Corollary value_leaf_returns_tokenized :
+    forall dc fs text toks run st,
+    tokenize dc fs text = Some toks -> (forall t, In t run -> In t toks) ->
+    exists st', value_leaf st run = ParseTotal.Returned st'.
+  Proof.
+    intros dc fs text toks run st H Hsub. apply value_leaf_returns.
+    pose proof (tokenize_sane _ _ _ _ H) as Hs. apply Forall_forall. intros t Ht.
+    unfold ProdParserSafe.sane_toks in Hs. rewrite Forall_forall in Hs. auto.
+  Qed.
+End C01Value.
